@@ -344,7 +344,7 @@ pub fn run_bfe(op: &str, a: &[Arg], st: &mut Stats) -> Option<Out> {
                 .with_oracle(eq == (x.value() == y.value()), "Eq differs from value equality")
                 .with_oracle(!eq || h(&x) == h(&y), "equal elements hash differently")
         }
-        _ => return None,
+        _ => return super::c01more::run_bfe_more(op, a, st), // C01 growth ops (c01more.rs)
     })
 }
 
@@ -469,6 +469,6 @@ pub fn run_xfe(op: &str, a: &[Arg], st: &mut Stats) -> Option<Out> {
             }
             Out::ok(okx(&r)).with_oracle(xv(&r) == acc, "From<Polynomial> is not reduction mod X^3-X+1")
         }
-        _ => return None,
+        _ => return super::c01more::run_xfe_more(op, a, st), // C01 growth ops (c01more.rs)
     })
 }
